@@ -314,6 +314,8 @@ pub fn gen_texts(seed: u64, n: usize) -> Vec<J> {
         out.push(json!({"kind":"text","text":text,"inputs":"{\"a\": 1, \"s\": \"\u{e9}z\"}"}));
         out.push(json!({"kind":"text","text":text,"inputs":J::Null}));
     }
+    // the factorial of the large whole numbers of the boundary pool: infinite, at once
+    out.push(json!({"kind":"text","text":"output big = [to_string(9007199254740992!), to_string(1e15!), to_string(4294967296!), to_string(18446744073709551615!), to_string(18446744073709551616!)]\n1e30!\n(2 ^ 53)!","inputs":J::Null}));
     for lo in [0usize, 40, 80, 120, 160] {
         let text: Vec<String> = (lo..lo + 45).map(|k| format!("{k}!")).collect();
         out.push(json!({"kind":"text","text":format!("output fs = [{}]\n(-3)!\n2.5!\n171! + 1\n1000!", text.join(", ")),"inputs":J::Null}));
